@@ -165,6 +165,16 @@ def worker_main(argv):
         if reproduced == 0 and b["verdicts"] and b["verdicts"][0].get("kind") == "stuck":
             # a hang that needs a rare interleaving: replay with varied hook seeds (full S4 window, so every hit is a complete witness), stop at the first hit
             import re as _re
+            # ... and under machine load (the C08 drain hang only showed with a dozen copies of the program running): unjudged copies loop in the background
+            helpers = []
+            try:
+                for hidx in range(6):
+                    hp = os.path.join(os.path.dirname(runner.prog_path), "load%d.prog" % hidx)
+                    open(hp, "w").write(b["program"])
+                    sh = "while :; do timeout 20 %s %s %s.load%d >/dev/null 2>&1; done" % (exe, hp, runner.shm_path, hidx)
+                    helpers.append(subprocess.Popen(["/bin/sh", "-c", sh], preexec_fn=os.setsid, stdout=subprocess.DEVNULL, stderr=subprocess.DEVNULL))
+            except Exception:
+                pass
             tries = 0
             for tries in range(1, 81):
                 text2 = _re.sub(r"hookseed=\d+", "hookseed=%d" % ((seed * 7919 + widx * 104729 + tries * 1000003) % 60000 + 1), b["program"])
@@ -174,7 +184,13 @@ def worker_main(argv):
                     b["reproduced"] = "1/%d with the hook seed varied" % tries
                     break
             else:
-                b["reproduced"] = "0/3 (and 0/80 with the hook seed varied)"
+                b["reproduced"] = "0/3 (and 0/80 with the hook seed varied, under load)"
+            for hp_ in helpers:
+                try:
+                    os.killpg(hp_.pid, 9)
+                except OSError:
+                    pass
+            subprocess.run(["pkill", "-9", "-f", os.path.dirname(runner.prog_path) + "/load"], stdout=subprocess.DEVNULL, stderr=subprocess.DEVNULL)
         b["recipe"] = _jsonable(b["recipe"])
         b["worker"] = dict(cpu=cpu, kind=kind, variant=variant, seed=seed, widx=widx)
         with open(os.path.join(outdir, "fail-%d.json" % widx), "w") as f:
